@@ -15,7 +15,7 @@ def bareOf (fn : String) : List String := (Gen.bareChanOps.filter (·.fn = fn)).
 /-- `WriteUpdate`: a non-blocking check of the writer's close channel, then (after the write) a
 `select` between that close channel and the send to the keepalive manager -/
 theorem write_update_selects :
-    casesOf "updateMessageWriter.WriteUpdate" = [["recv u.closeCh", "default"], ["recv u.closeCh", "send u.resetKATimerCh"]] := by decide
+    casesOf "updateMessageWriter.WriteUpdate" = [["default", "recv u.closeCh"], ["recv u.closeCh", "send u.resetKATimerCh"]] := by decide
 
 /-- the keepalive manager: one `select` between its close channel and the reset requests -/
 theorem manager_select : casesOf "fsm.established$1" = [["recv closeKAManagerCh", "recv resetKATimerCh"]] := by decide
